@@ -83,7 +83,52 @@ def run_generated(prop, seed, run, tier, known=None, fault_plan=None):
     record = {'engine': 'A', 'property': prop, 'seed': seed, 'run': run, 'tier': tier,
               'profile': {k: profile[k] for k in ('magnitude', 'round_numbers', 'plate_size', 'cache_policy', 'n_events')},
               'subs': subs, 'events': events}
+    if fault_plan is None and rng.random() < 0.2:
+        # a second "session" in the same process and the same run: substances with the same names but other properties
+        # (another lot, another supplier).  Process-global memo tables keyed by partial identity show up here, replayably.
+        subs2 = second_session_subs(rng, subs)
+        b2 = new_bench(rep, subs2, dict(profile, cache_policy='never'), known)
+        b2.idx = len(events) - 1
+        g2 = GenA(rng, b2, profile)
+        ev2 = []
+        for ev in g2.initial_events():
+            ev2.append(ev)
+            b2.step(ev)
+        for _ in range(rng.randint(3, 8)):
+            ev = g2.next_event()
+            ev2.append(ev)
+            b2.step(ev)
+        record['session2'] = {'subs': subs2, 'events': ev2}
+        merge_bench(b, b2)
     return record, b
+
+
+def second_session_subs(rng, subs):
+    from .gen_a import dec, loguniform, round_sig
+    from fractions import Fraction as F
+    out = []
+    for name, kind, mw, rho, act in subs:
+        if kind == 'enzyme':
+            val = round_sig(rng, loguniform(rng, 1e-3, 1e6), True)
+            out.append([name, kind, None, None, f"{dec(val)} U/g"])
+        elif kind == 'liquid':
+            out.append([name, kind, dec(F(repr(round(float(mw) * rng.uniform(0.5, 2), 3))), 8),
+                        dec(F(repr(round(float(rho) * rng.uniform(0.5, 2), 4))), 6), None])
+        else:
+            out.append([name, kind, dec(F(repr(round(float(mw) * rng.uniform(0.5, 2), 3))), 8), None, None])
+    return out
+
+
+def merge_bench(b, b2):
+    """Fold the second session's findings into the first bench object (which is what the runner summarises)."""
+    b.violations.extend(b2.violations)
+    b.stats.update(b2.stats)
+    b.stats['probe:second_session'] += 1
+    b.sig.update(b2.sig)
+    b.log.extend(b2.log)
+    b.n_ok_state += b2.n_ok_state
+    for k, v in b2.max_ratio.items():
+        b.max_ratio[k] = max(b.max_ratio.get(k, 0.0), v)
 
 
 def run_replay(record, known=None, fault_exec=None):
@@ -95,6 +140,13 @@ def run_replay(record, known=None, fault_exec=None):
             fault_exec(b, ev)
         else:
             b.step(ev)
+    s2 = record.get('session2')
+    if s2:
+        b2 = new_bench(rep, s2['subs'], dict(record.get('profile', {}), cache_policy='never'), known)
+        b2.idx = len(record['events']) - 1
+        for ev in s2['events']:
+            b2.step(ev)
+        merge_bench(b, b2)
     return b
 
 
